@@ -8,6 +8,7 @@ run_prop() {
   p=$1
   for d in seeded/$p-*/; do
     id=$(basename $d)
+    if grep -q '"obsolete": true' /verif/$d/meta.json 2>/dev/null; then echo "$id obsolete (the code it changes was replaced by a repair; see meta.json)"; continue; fi
     if ! git -C /repo apply --check /verif/$d/patch.diff 2>/dev/null; then echo "$id patch-does-not-apply-any-more"; continue; fi
     out=$(tools/try_seed_scratch.sh /verif/$d/patch.diff $p $TIER 2>&1 | grep -v conda)
     rc=$(echo "$out" | grep -o "exit=[0-9]*" | head -1)
